@@ -372,9 +372,61 @@ impl core::ops::Mul<Sc> for DMatrix { type Output = DMatrix;
 pub trait Zero: Sized { spec fn zv(&self) -> real; fn zero() -> (r: Self) ensures r.zv() == 0real; }
 impl Zero for Sc { open spec fn zv(&self) -> real { self@ } #[verifier::external_body] fn zero() -> (r: Self) { unimplemented!() } }
 
+
+impl DMatrix {
+  /// nalgebra tr_mul / ad_mul (reals): self^T * rhs; asserts self.nrows == rhs.nrows
+  #[verifier::external_body]
+  pub fn tr_mul(&self, rhs: &DMatrix) -> (r: DMatrix) requires self.ok(), rhs.ok(), self@.r == rhs@.r ensures r@ == mmul(mtr(self@), rhs@), r.ok() { unimplemented!() }
+  #[verifier::external_body]
+  pub fn ad_mul(&self, rhs: &DMatrix) -> (r: DMatrix) requires self.ok(), rhs.ok(), self@.r == rhs@.r ensures r@ == mmul(mtr(self@), rhs@), r.ok() { unimplemented!() }
+  #[verifier::external_body]
+  pub fn clone_owned(&self) -> (r: DMatrix) requires self.ok() ensures r@ == self@, r.ok() { unimplemented!() }
+  #[verifier::external_body]
+  pub fn into_owned(self) -> (r: DMatrix) requires self.ok() ensures r@ == self@, r.ok() { unimplemented!() }
+  #[verifier::external_body]
+  pub fn scale(&self, t: Sc) -> (r: DMatrix) requires self.ok() ensures r@ == scale(self@, t@), r.ok() { unimplemented!() }
+  #[verifier::external_body]
+  pub fn is_square(&self) -> (b: bool) ensures b == (self@.r == self@.c) { unimplemented!() }
+  #[verifier::external_body]
+  pub fn shape(&self) -> (s: (usize, usize)) ensures s.0 == self@.r, s.1 == self@.c { unimplemented!() }
+  #[verifier::external_body]
+  pub fn norm(&self) -> (r: Sc) requires self.ok() ensures r@ == sqrt_r(frob2(self@)) { unimplemented!() }
+  /// nalgebra zeros(r, c) is spelled DMatrix::zeros(r, c); the one-argument form above is DVector::zeros(n)
+  #[verifier::external_body]
+  pub fn zeros2(r: usize, c: usize) -> (m: DMatrix) ensures m@ == zeros(r as nat, c as nat), m.ok() { unimplemented!() }
+  /// nalgebra try_svd: `eps` is the CONVERGENCE TOLERANCE of the QR iteration (not a truncation threshold) and `max_niter` its
+  /// budget (0 = unlimited); None if it does not converge. The factors are the decomposition of the input only up to
+  /// that tolerance: exactness is promised only for a tolerance at machine epsilon.
+  #[verifier::external_body]
+  pub fn try_svd(self, compute_u: bool, compute_v: bool, eps: Sc, max_niter: usize) -> (r: Option<SVD>)
+    requires self.ok(), self@.r >= 1, self@.c >= 1, self.fin(),
+    ensures r matches Some(s) ==> ((compute_u && compute_v && 0real <= eps@ <= EPS()) ==> s.is_of(self@)
+              && svd_ok(self@, svd_u(self@), svd_s(self@), svd_vt(self@))),
+  { unimplemented!() }
+  /// nalgebra pseudo_inverse(eps) (linalg/pinv.rs -> svd.rs pseudo_inverse): eps < 0 => Err; singular values <= eps are
+  /// treated as zero, so this is the inverse only when no singular value is truncated
+  #[verifier::external_body]
+  pub fn pseudo_inverse(self, eps: Sc) -> (r: Result<DMatrix, &'static str>)
+    requires self.ok(), self@.r >= 1, self@.c >= 1,
+    ensures r matches Ok(b) ==> b.ok() && b@ == mmul(mtr(svd_vt(self@)), mmul(diagm(pinv_diag(svd_s(self@), eps@)), mtr(svd_u(self@)))),
+            eps@ < 0real ==> r.is_err(),
+  { unimplemented!() }
+}
+impl SVD {
+  /// svd.rs pseudo_inverse: v_t^T diag(1/s_i if s_i > eps else 0) u^T
+  #[verifier::external_body]
+  pub fn pseudo_inverse(self, eps: Sc) -> (r: Result<DMatrix, &'static str>)
+    ensures (eps@ >= 0real && self.u.is_some() && self.v_t.is_some()) ==> (r matches Ok(b) && b.ok()
+              && b@ == mmul(mtr(self.v_t.unwrap()@), mmul(diagm(pinv_diag(self.singular_values@.e[0], eps@)), mtr(self.u.unwrap()@)))),
+  { unimplemented!() }
+}
+
 #[verifier::external_body]
 pub fn __vp_ok_unit<E>() -> (r: Result<(), E>) ensures r.is_ok() { unimplemented!() }
 pub fn __vp_succ(k: usize) -> (r: usize) requires k < usize::MAX ensures r == k + 1 { k + 1 }
+/// bound of `.skip(a).take(b)` over n items: min(n, a + b) without overflow
+pub fn __vp_take_bound(n: usize, a: usize, b: usize) -> (r: usize) ensures r <= n, (a + b >= n) ==> r == n, ((a + b) < n) ==> r == a + b
+{ if b >= n || a >= n - b { n } else { a + b } }
 pub fn __vp_min(a: usize, b: usize) -> (r: usize) ensures r <= a, r <= b, r == a || r == b { if a <= b { a } else { b } }
 
 /// rule X6: every assert!/assert_eq!/debug_assert! site is an obligation, every panic! site must be unreachable
